@@ -10,7 +10,7 @@ CLAIMED = {
     note="Lean kernel + propext/Quot.sound; the executor model covers scalars, streams, stream maps, canon streams, canon maps and all folds (nothing is skipped as unmodelled by the correspondence); hashing and JSON parsing are parameters of the model (Env); the theorem is about the model, tied to the code by differential runs only.",
     technique="Lean 4 proof: relational invariant through the fuelled interpreter (induction on fuel) + lock-step differential histories", design="§5.1, §8 C06"),
  'C19': dict(
-    text="Theorems about Aqua.Exec.runExec for EVERY script, fuel, data pair, parameters and call results (same induction, exec_grow): C19_local_only (every call request of a run was issued for a call whose resolved peer is the current peer), C19_next_peers_not_self, C19_outcome_next_peers (any duplicate-free list with the same members, i.e. the HashSet round trip of farewell, has no duplicates and never names the current peer), C19_peer_ids_stable, C19_remote_call_forwarded (the one update that creates a sent-by-me call entry appends the call's resolved peer to the next peers in the same step), C19_canon_and_calls_never_forward_to_self (whole run, canon included); lifted to EVERY reachable state of the network model Aqua.Net (any script, services, schedule): C19_network_requests_local (every request any host was ever handed is for a call addressed to that host's peer), C19_network_never_forwards_to_self, C19_network_failed_run_inert; canon creation only at the addressed peer is C11_created_only_at_target. Quiescence (no sent-but-unexecuted entry once everything is delivered) is checked by the oracle on finished histories only (partial). Tie: lock-step correspondence (projection: code, next-peer set, requests) + direct oracle on every step.",
+    text="Theorems about Aqua.Exec.runExec for EVERY script, fuel, data pair, parameters and call results (same induction, exec_grow): C19_local_only (every call request of a run was issued for a call whose resolved peer is the current peer), C19_next_peers_not_self, C19_outcome_next_peers (any duplicate-free list with the same members, i.e. the HashSet round trip of farewell, has no duplicates and never names the current peer), C19_peer_ids_stable, C19_remote_call_forwarded (the one update that creates a sent-by-me call entry appends the call's resolved peer to the next peers in the same step), C19_canon_and_calls_never_forward_to_self (whole run, canon included); lifted to EVERY reachable state of the network model Aqua.Net (any script, services, schedule): C19_network_requests_local (every request any host was ever handed is for a call addressed to that host's peer), C19_network_never_forwards_to_self, C19_network_failed_run_inert, C19_network_wire_from_runs (every message in flight in any reachable state carries the data an accepted run returned and is addressed to one of the next peers that run named, never to the peer that produced it: a particle travels only where a run asked for it, and the current data honest hosts are handed is interpreter output); canon creation only at the addressed peer is C11_created_only_at_target. Quiescence (no sent-but-unexecuted entry once everything is delivered) is checked by the oracle on finished histories only (partial). Tie: lock-step correspondence (projection: code, next-peer set, requests) + direct oracle on every step.",
     note="Lean kernel + propext/Quot.sound; executor model incl. streams, stream maps, canon streams and canon maps; forPeer is a ghost field of the model's request record.",
     technique="Lean 4 proof: relational invariant through the fuelled interpreter + lock-step differential histories", design="§5.1, §8 C19"),
  'C15': dict(
